@@ -396,7 +396,7 @@ def r3(R):
             if lab == 'e':
                 return PRUNE
             for o in F.ops(nd):
-                if o.kind == 'store' and o.path == ('%local', 'pos'):
+                if o.kind == 'store' and o.path and o.path[0] == '%local':
                     v = store_value(o)
                     if v is not None and isinstance(v, ast.Attribute) and \
                             v.attr == 'prev':
